@@ -45,7 +45,9 @@ def install_datagram_env(ip):
         if socks is None:
             socks = []
             ctx.sockets = socks
-        busy = any(t.state["port"] == port and not t.state["closed"] for t in socks) or port in getattr(ctx, "foreign_ports", ())
+        def same_port(a, b):
+            return a is b or (isinstance(a, int) and isinstance(b, int) and a == b)
+        busy = any(same_port(t.state["port"], port) and not t.state["closed"] for t in socks)
         ctx.ghost.events.append(("bind", port))
         fail_at = getattr(ctx, "fail_at_bind", None)
         nth = len([e for e in ctx.ghost.events if e[0] == "bind"]) - 1
